@@ -448,6 +448,8 @@ class Check:
         return 0
 
 
+LEVELS = {"C17": "exploration"}
+
 def run_check(pid, fn, argv):
     import argparse
     ap = argparse.ArgumentParser()
@@ -455,7 +457,7 @@ def run_check(pid, fn, argv):
     ap.add_argument("--seed", type=int, default=int(os.environ.get("VERIF_SEED", "1")))
     ap.add_argument("--replay")
     a = ap.parse_args(argv)
-    c = Check(pid, a.tier, a.seed)
+    c = Check(pid, a.tier, a.seed, level=LEVELS.get(pid, "model_checking"))
     rc = 2
     try:
         fn(c, a)
